@@ -41,6 +41,10 @@ def random_datagrams(rnd, pool_ok, n):
     q = QNAME + [0, 1, 0, 1]
     for i in range(n):
         kind = i % 9
+        if i % 60 == 59:                                  # a large reply now and then (they are long: keep them few)
+            d, tag = large_reply(rnd, q)
+            out.append({"tag": tag, "d": d})
+            continue
         if kind == 0:                                     # random bytes
             d = [rnd.randrange(256) for _ in range(rnd.choice([0, 1, 2, 3, 4, 5, 11, 12, 13, 20, 40, 80]))]
             tag = "rnd-bytes"
@@ -92,6 +96,74 @@ def random_datagrams(rnd, pool_ok, n):
             d = hdr(0x8180, 1, 1) + q + [192, 12, 0, 5, 0, 1, 0, 0, 0, 3, (len(labels) + 1) >> 8, (len(labels) + 1) & 255] + labels + [0]
             tag = "long-name"
         out.append({"tag": tag, "d": d[:4096]})
+    return out
+
+
+def rec(owner, rtype, rdata, ttl=(0, 0, 0, 9)):
+    return owner + [rtype >> 8, rtype & 255, 0, 1] + list(ttl) + [len(rdata) >> 8, len(rdata) & 255] + rdata
+
+
+def ptr(off):
+    return [192 | (off >> 8), off & 255]
+
+
+def large_reply(rnd, q, total=None):
+    """Well-formed reply of 1..4 KB: TXT records with long rdata (skipped by the parser) push a literal CNAME name to an offset
+    H >= 1024; later names are compressed with pointers to H (and into it). Wherever H mod 256/512/1024/2048 lies inside the
+    padding a DIFFERENT valid name is planted there, so a decoder that loses high bits of the 14-bit offset reports a wrong name."""
+    base = 12 + len(q)
+    H = rnd.choice([1024, 1025, 1279, 1536, 2047, 2048, 2049, 2560, 3071, 3072, 3333, 4000]) if total is None else total - 100
+    lab = lambda: [rnd.choice(b"abcdefgh0123") for _ in range(rnd.randrange(1, 6))]
+    n1, n2 = lab(), lab()
+    name = [len(n1)] + n1 + [len(n2)] + n2 + [0]          # literal name at H
+    # two padding TXT records: [base+12, ...) and a second one ending at H - 12
+    p1 = rnd.randrange(40, (H - base - 40) // 2)
+    pad_total = H - 12 - (base + 12) - 12                 # rdata bytes of both pads together
+    pads = [p1, pad_total - p1]
+    d = hdr(0x8180, 1, 5) + q
+    for pl in pads:
+        d += rec(ptr(12), 16, [33] * pl)
+    assert len(d) == H - 12, (len(d), H)
+    for m in (256, 512, 1024, 2048):                      # decoys where the truncated offsets fall into padding
+        for tgt in (H, H + 1 + len(n1)):
+            o = tgt % m
+            if o != tgt and base + 14 <= o and o + 4 < H - 12 and all(x == 33 for x in d[o:o + 4]) and \
+               not (base + 12 + pads[0] - 4 <= o <= base + 12 + pads[0] + 12):
+                d[o:o + 4] = [2, 122, 122, 0]             # "zz"
+    d += rec(ptr(12), 5, name, (0, 0, 0, 60))             # CNAME literal, rdata at H
+    d += rec(ptr(12), 5, [1, 101] + ptr(H), (0, 0, 2, 88))                  # "e" + pointer to H
+    d += rec(ptr(H + 1 + len(n1)), 1, [10, 9, 8, 7], (0, 0, 0, 7))          # owner = pointer to the second label of the name at H
+    if total is not None and len(d) + 16 <= total:        # fill up to the wanted size with one more TXT record, or leave
+        fill = total - len(d) - 12
+        if fill >= 0:
+            d += rec(ptr(12), 16, [33] * fill)
+        else:
+            d[7] -= 1
+    else:
+        d[7] -= 1
+    return d, "large-%d" % len(d)
+
+
+def oversize_replies(rnd, q):
+    """Datagrams LARGER than UdpSocket's 4096-byte receive buffer, well-formed as sent: a TXT record whose rdata ends at
+    offset B (before / at / behind the 4096th byte), then A records up to the wanted size.  The receiver sees only a prefix:
+    whatever it does with it, it must not read behind what it received nor report anything that is not in the datagram."""
+    out = []
+    base = 12 + len(q)
+    for size, B in ((4097, 4081), (4100, 4090), (4112, 4096), (5000, 4097), (5000, 4500), (9000, 4200), (20000, 8000), (65000, 4096),
+                    (65000, 64000)):
+        n = min(24, max(1, (size - B) // 16))
+        d = hdr(0x8180, 1, 1 + n) + q + rec(ptr(12), 16, [33] * (B - base - 12))
+        for j in range(n):
+            d += rec(ptr(12), 1, [10, 77, j, rnd.randrange(256)], (0, 0, 0, 7))
+        if len(d) < size:                                 # more skipped padding in the additional section
+            d[11] = 1
+            d += rec(ptr(12), 16, [35] * max(0, size - len(d) - 12))
+        out.append({"tag": "oversize-%d-%d" % (len(d), B), "d": d})
+    # sizes around the buffer size that must still be handled whole and exactly
+    for total in (4095, 4096):
+        d, _ = large_reply(rnd, q, total)
+        out.append({"tag": "edge-%d" % len(d), "d": d})
     return out
 
 
@@ -256,6 +328,7 @@ def models_(ctx):
     ctx.tlc_mc("Dns", "MC_DnsParse.tla", "MC_DnsParse_asfound_depth.cfg", expect="BoundedDepth", coverage=False, env=TLC_ENV)
     ctx.tlc_mc("Dns", "MC_DnsParse.tla", "MC_DnsParse_asfound_uninit.cfg", expect="NoUninit", coverage=False, env=TLC_ENV)
     ctx.tlc_mc("Dns", "MC_DnsParse.tla", "MC_DnsParse_resetonlabel.cfg", expect="BoundedDepth", coverage=False, env=TLC_ENV)
+    ctx.tlc_mc("Dns", "MC_DnsParse.tla", "MC_DnsParse_mask10.cfg", expect="Conforms", coverage=False, env=TLC_ENV)
     if not q:
         ctx.tlc_mc("Dns", "MC_DnsParse.tla", "MC_DnsParse_asfound_safe.cfg", expect="Safe", coverage=False, env=TLC_ENV)
         ctx.tlc_mc("Dns", "MC_DnsLookup.tla", "MC_DnsLookup_thorough.cfg", coverage=False, timeout=2400)
@@ -299,6 +372,7 @@ def run(ctx):
         ev = [json.loads(x) for x in vlib.read_lines(tr, 1, 6)]
         ctx.sample({"kind": "recorded trace (first events of the datagram run)", "events": [{k: v for k, v in e.items() if k != "script"} for e in ev]})
     rd = random_datagrams(rnd, [g["d"] for g in pools["ok"]], 2400 if q else 30000)
+    rd += oversize_replies(rnd, QNAME + [0, 1, 0, 1])
     run_scripts(ctx, exe, datagram_scripts(rnd, rd), "rnddgrams", "%d random / mutated datagrams" % len(rd), replayed=False)
 
     # 2. lookups: every script of the bounded model (BFS), a sample of the next depth, deep random ones
@@ -319,7 +393,7 @@ def run(ctx):
         plain = vlib.build("c15_dns", SRC, ["c15_dns/driver.cpp"], flavour="plain", defines=DEFS)
         sub = gens + rd
         if q:
-            sub = [g for g in gens if g["tag"] in ("trunc", "good", "an+2", "qd=2", "ptr-out", "ptr-end", "rdlen+1", "cyc-owner", "cyc-cname", "ptr-label-loop")][::2] + rd[:320]
+            sub = [g for g in gens if g["tag"] in ("trunc", "good", "an+2", "qd=2", "ptr-out", "ptr-end", "rdlen+1", "cyc-owner", "cyc-cname", "ptr-label-loop", "large")][::2] + rd[:320]
         vg = ["valgrind", "-q", "--error-exitcode=97", "--undef-value-errors=yes", "--track-origins=no", "--leak-check=no"]
         run_scripts(ctx, plain, datagram_scripts(rnd, sub) + hist[:20 if q else 300], "memcheck",
                     "valgrind memcheck: %d datagrams + histories" % len(sub), replayed=False, wrapper=vg)
@@ -331,7 +405,9 @@ def run(ctx):
         "for every other datagram only the statement's safety clauses are demanded",
         "timeout: a pending lookup may time out at any tick and must be resolved within 40 ticks (the tick count of the ring is a capacity, not part of the statement)",
         "duplicate server-failure replies of one server and malformed datagrams may or may not be counted as failed servers",
-        "datagrams are at most 4096 bytes (the receive buffer of UdpSocket); source address of replies is not checked by the statement",
+        "datagrams of up to 4096 bytes (UdpSocket's receive buffer) must be processed whole; longer ones (4097 .. 65000 bytes are sent) may be cut "
+        "by the receiver: outcome open, but nothing may be reported that is not in the datagram and nothing behind the received bytes may be read (ASan)",
+        "source address of replies is not checked by the statement",
     ]
     ctx.uncovered += ["cancel() of a lookup from inside its own callback (outside the statement's histories)",
                       "request-id wrap-around after 65535 lookups of one DnsRequest object"]
